@@ -81,8 +81,15 @@ def phaseOf (f : Flags) (r : Rec) : Option BlockId :=
       else some (some 0)
     else none
 
-/-- `len(ref) == 1 and all(len(alt) == 1 ...)` (the reader) — for biallelic records this is `VcfVariant.is_snv` -/
+/-- `len(ref) == 1 and all(len(alt) == 1 ...)`: the reader's test for `--only-snvs` -/
 def snvLike (r : Rec) : Bool := r.ref.length == 1 && r.alts.all (·.length == 1)
+
+/-- `VcfVariant.is_snv` of the `BiallelicVcfVariant` the reader builds: one base against a *different* base
+(the reader's own `--only-snvs` test `snvLike` looks at the lengths only; the two differ for ALT = REF) -/
+def isSnvVariant (r : Rec) : Bool :=
+  match r.alts with
+  | [a] => r.ref != a && r.ref.length == 1 && a.length == 1
+  | _ => false
 
 /-- `_process_single_chromosome`: `prev` = `prev_position` -/
 def readLoop (f : Flags) (onlySnvs : Bool) : Option Nat → List Rec → Except Err (List Var)
@@ -96,8 +103,8 @@ def readLoop (f : Flags) (onlySnvs : Bool) : Option Nat → List Rec → Except 
       | some p =>
         if p > r.pos then .error .notSorted
         else if p == r.pos then readLoop f onlySnvs prev rs
-        else (readLoop f onlySnvs (some r.pos) rs).map (⟨r.pos, snvLike r, genoOf r.gt, phaseOf f r⟩ :: ·)
-      | none => (readLoop f onlySnvs (some r.pos) rs).map (⟨r.pos, snvLike r, genoOf r.gt, phaseOf f r⟩ :: ·)
+        else (readLoop f onlySnvs (some r.pos) rs).map (⟨r.pos, isSnvVariant r, genoOf r.gt, phaseOf f r⟩ :: ·)
+      | none => (readLoop f onlySnvs (some r.pos) rs).map (⟨r.pos, isSnvVariant r, genoOf r.gt, phaseOf f r⟩ :: ·)
 
 def readChrom (f : Flags) (onlySnvs : Bool) (recs : List Rec) : Except Err (List Var) := readLoop f onlySnvs none recs
 
